@@ -96,6 +96,12 @@ CHECKS["C08"] = dict(
     note="numexpr is absent: the acceleration clause is not exercised (listed in evidence.not_covered). Quick tier: 20 classes covering every factor value; thorough: 400. Open finding: default MieLens quadrature unconverged at large k*rho*sin(angle).",
     ref="5 C08")
 
+CHECKS["C09"] = dict(
+    technique="TLA+ spec TheoryChoice.tla (default-theory rule as a total decision function with the 30-radius boundary decided in exact integer geometry) model-checked by TLC; every enumerated scatterer replayed against determine_default_theory_for and calc_holo(theory='auto'); permutation / rotation / one-sphere relations of the multi-sphere solver replayed",
+    text="TLC enumerates 147 abstract scatterers: single and layered sphere, clusters of 1-3 spheres with layered or unplaced members and separations exactly at 30 largest radii ((30,0,0), (18,24,0), (0,18,24)), just inside (29) and just beyond (31, (18,25,0)), far (60), spheroid, cylinder, ellipsoid, capsule, CSG, and non-scatterers; the specified outcome (Mie / Multisphere / Tmatrix / DDA->DependencyMissing / AutoTheoryFailed / InvalidScatterer) must be what determine_default_theory_for gives, and calc_holo(theory='auto') must be byte-identical to naming that theory (and distinguishable from the other candidate). All orders of clusters of 2-4(5) spheres (equal sizes, unequal pairs, unequal >= 3) for both interaction solvers, rotation covariance about the optical axis, and the one-sphere cluster vs Mie are replayed.",
+    note="Open finding: Multisphere is order dependent for >= 3 spheres of unequal size. adda absent: the DDA outcome is DependencyMissing as documented.",
+    ref="5 C09")
+
 NOT_APPLICABLE = []
 
 
